@@ -436,8 +436,11 @@ def sync_scratch_lean():
     if LEAN_DIR != LEAN_SRC:
         os.makedirs(LEAN_DIR, exist_ok=True)
         with lean_lock():
-            subprocess.run(["rsync", "-a", "--exclude", "Generated", "--exclude", ".lake_lock",
-                            LEAN_SRC + "/", LEAN_DIR + "/"], check=True)
+            proc = subprocess.run(["rsync", "-a", "--exclude", "Generated", "--exclude", ".lake_lock",
+                                   LEAN_SRC + "/", LEAN_DIR + "/"], stdout=subprocess.PIPE, stderr=subprocess.STDOUT)
+            # 24 = "some files vanished while copying" (another run rebuilt them): harmless, lake rebuilds
+            if proc.returncode not in (0, 24):
+                raise RuntimeError("rsync of the lake project failed: %s" % proc.stdout[-500:])
 
 
 def run_check(pid, tier, seed, module, replay=None):
